@@ -129,7 +129,13 @@ def finish(ctx, level="model_checking"):
     for d in ctx.drift[:10]:
         print("SPEC-DRIFT: property=%s %s" % (ctx.pid, d))
     cov = ctx.cov
-    cov["distinct_nontrivial"] = len(ctx._distinct)
+    if not isinstance(cov.get("exhaustive", False), bool):      # the schema wants a boolean; keep the driver's words separately
+        cov["exhaustive_scope"] = str(cov["exhaustive"])
+        cov["exhaustive"] = False
+    for k in ("states", "transitions", "traces_validated_against_impl", "evaluations"):
+        cov[k] = int(cov.get(k, 0))
+    cov["samples"] = list(cov.get("samples", []))
+    cov["distinct_nontrivial"] = max(len(ctx._distinct), int(cov.get("distinct_nontrivial", 0) or 0))
     cov["known_findings_seen"] = sorted(seen_known)
     cov["violation_signatures"] = sorted(fresh)
     cov["spec_drift"] = ctx.drift[:20]
